@@ -364,7 +364,9 @@ def _catalog_roundtrip(events, mode, catalog_id=None, name=None, region=None, he
                 continue
             c2 = o[1]
             bad += _cmp_events(tag, c2, events)
-            bad += _cmp_catalog_id(tag, c2, catalog_id)
+            if events or mode in ('dict', 'json'):
+                # a header-only file / an empty DataFrame has no row that could carry the id
+                bad += _cmp_catalog_id(tag, c2, catalog_id)
             if mode in ('dict', 'json'):
                 if name is not None and getattr(c2, 'name', None) != name:
                     bad.append('%s: name %r, written %r' % (tag, getattr(c2, 'name', None), name))
@@ -743,3 +745,455 @@ def _cartesian_region_dict_roundtrip(lattice, probe_seed=0, n_probes=200, throug
             if len(bad) >= MAXBAD:
                 break
     return bad
+
+
+# ================================================================== C17
+MERC_LAT = math.degrees(math.atan(math.sinh(math.pi)))   # 85.0511287798066
+EARTH_R_KM = 6371.0
+
+
+def _tile_of_quadkey(qk):
+    x = y = 0
+    for ch in qk:
+        d = int(ch)
+        if d not in (0, 1, 2, 3):
+            raise ValueError('bad quadkey ' + qk)
+        x = 2 * x + (d & 1)
+        y = 2 * y + (d >> 1)
+    return x, y, len(qk)
+
+
+def _tile_bounds(qk):
+    """west, south, east, north of a quadkey tile: independent Web-Mercator formula"""
+    x, y, z = _tile_of_quadkey(qk)
+    n = 2 ** z
+    lon = lambda i: i / n * 360.0 - 180.0
+    lat = lambda j: math.degrees(math.atan(math.sinh(math.pi * (1 - 2 * j / n))))
+    return lon(x), lat(y + 1), lon(x + 1), lat(y)
+
+
+def _locate(bounds, lon, lat):
+    """indices of the cells whose west/south-inclusive, east/north-exclusive bounds contain the point"""
+    m = (lon >= bounds[:, 0]) & (lat >= bounds[:, 1]) & (lon < bounds[:, 2]) & (lat < bounds[:, 3])
+    return numpy.nonzero(m)[0]
+
+
+def _qt_index_outcome(region, lon, lat):
+    o = call(region.get_index_of, lon, lat)
+    if o[0] == 'raise':
+        return 'raise ' + _exc(o)
+    v = o[1]
+    if v is None:
+        return 'None'
+    a = numpy.asarray(v)
+    if a.size == 0:
+        return None
+    if a.size == 1 and numpy.issubdtype(a.dtype, numpy.integer):
+        return int(a.ravel()[0])
+    return repr(v)
+
+
+@oracle('quadtree_grid')
+def _quadtree_grid(kind, zoom=None, threshold=None, events=None, quadkeys=None, california=False, probe_seed=0, n_probes=300,
+                   corner_cells=200):
+    """kind = single | catalog | quadkeys.  events = [[lon, lat], ...] (catalog); quadkeys = list of strings"""
+    from csep.core.regions import QuadtreeGrid2D
+    from csep.core.catalogs import CSEPCatalog
+    rng = random.Random(probe_seed)
+    if kind == 'single':
+        o = call(QuadtreeGrid2D.from_single_resolution, zoom)
+    elif kind == 'catalog':
+        cat = CSEPCatalog(data=[('e%d' % k, 1000 * k, float(la), float(lo), 10.0, 5.0) for k, (lo, la) in enumerate(events)])
+        o = call(QuadtreeGrid2D.from_catalog, cat, threshold, zoom=zoom)
+    else:
+        if california:
+            import csep
+            p = os.path.join(os.path.dirname(csep.__file__), 'artifacts', 'Regions', 'california_qk_zoom=12.txt')
+            if not os.path.exists(p) or os.path.getsize(p) == 0:
+                return []
+            quadkeys = [ln.strip() for ln in open(p) if ln.strip()]
+        o = call(QuadtreeGrid2D.from_quadkeys, list(quadkeys))
+    if o[0] == 'raise':
+        return ['constructing the %s grid raised %s' % (kind, _exc(o))]
+    reg = o[1]
+    bad = []
+    qks = [str(q) for q in reg.quadkeys]
+    bounds = numpy.asarray(reg.bounds, dtype=float)
+    n = len(qks)
+    if bounds.shape != (n, 4) or reg.num_nodes != n:
+        return ['grid has %d quadkeys, bounds of shape %r, %d polygons' % (n, bounds.shape, reg.num_nodes)]
+    if kind == 'quadkeys' and qks != [str(q) for q in quadkeys]:
+        bad.append('from_quadkeys does not keep the given quadkeys in order')
+    # bounds of every cell against the independent tile formula
+    ref = numpy.array([_tile_bounds(q) for q in qks])
+    dev = numpy.abs(bounds - ref)
+    if dev.max() > 1e-9:
+        k = int(numpy.argmax(dev.max(axis=1)))
+        bad.append('cell %s has bounds %r, Web-Mercator tile bounds are %r' % (qks[k], bounds[k].tolist(), ref[k].tolist()))
+    # disjoint: no quadkey is a prefix of (or equal to) another; covering: the tiles fill the unit square
+    srt = sorted(qks)
+    for a, b in zip(srt, srt[1:]):
+        if b.startswith(a):
+            bad.append('cells overlap: quadkey %s and %s' % (a, b))
+            break
+    cover = sum(Fraction(1, 4 ** len(q)) for q in qks)
+    full = kind in ('single', 'catalog')
+    if full:
+        if cover != 1:
+            bad.append('cells cover the fraction %s of the Web-Mercator square, not all of it' % cover)
+        ext = (bounds[:, 0].min(), bounds[:, 1].min(), bounds[:, 2].max(), bounds[:, 3].max())
+        if ext[0] != -180.0 or ext[2] != 180.0 or abs(ext[1] + MERC_LAT) > 1e-9 or abs(ext[3] - MERC_LAT) > 1e-9:
+            bad.append('grid extent %r, required lon [-180, 180) lat +-%r' % (ext, MERC_LAT))
+    if kind == 'single':
+        if n != 4 ** zoom or any(len(q) != zoom for q in qks):
+            bad.append('single resolution zoom %d: %d cells, lengths %r' % (zoom, n, sorted(set(len(q) for q in qks))))
+    # refinement criterion
+    if kind == 'catalog':
+        lon = numpy.array([e[0] for e in events], dtype=float)
+        lat = numpy.array([e[1] for e in events], dtype=float)
+        counts = {}
+        for lo, la in zip(lon.tolist(), lat.tolist()):
+            hit = _locate(bounds, lo, la)
+            if len(hit) > 1:
+                bad.append('event (%r, %r) lies in %d cells' % (lo, la, len(hit)))
+            elif len(hit) == 1:
+                counts[qks[hit[0]]] = counts.get(qks[hit[0]], 0) + 1
+            elif -180 <= lo < 180 and -MERC_LAT + 1e-9 < la < MERC_LAT - 1e-9:
+                bad.append('event (%r, %r) lies in no cell' % (lo, la))
+        under = {}
+        for q in qks:
+            c = counts.get(q, 0)
+            if len(q) > zoom:
+                bad.append('cell %s is deeper than the maximum zoom %d' % (q, zoom))
+            if c > threshold and len(q) < zoom:
+                bad.append('cell %s holds %d events > threshold %d but is not at the maximum zoom %d' % (q, c, threshold, zoom))
+            for L in range(1, len(q)):
+                under[q[:L]] = under.get(q[:L], 0) + c
+        for p, c in sorted(under.items()):
+            if c <= threshold:
+                bad.append('cell %s holding %d events <= threshold %d was split' % (p, c, threshold))
+                break
+    # areas
+    o = call(reg.get_cell_area)
+    if o[0] == 'raise':
+        bad.append('get_cell_area raised ' + _exc(o))
+    else:
+        area = numpy.asarray(o[1], dtype=float)
+        rad = math.pi / 180.0
+        exp = EARTH_R_KM ** 2 * (ref[:, 2] - ref[:, 0]) * rad * (numpy.sin(ref[:, 3] * rad) - numpy.sin(ref[:, 1] * rad))
+        if area.shape != exp.shape:
+            bad.append('get_cell_area returns %r values for %d cells' % (area.shape, n))
+        else:
+            rel = numpy.abs(area - exp) / exp
+            if rel.max() > 1e-6:
+                k = int(numpy.argmax(rel))
+                bad.append('area of cell %s is %r km2, spherical formula gives %r' % (qks[k], float(area[k]), float(exp[k])))
+            if full:
+                band = 2 * math.pi * EARTH_R_KM ** 2 * (math.sin(MERC_LAT * rad) - math.sin(-MERC_LAT * rad))
+                if abs(float(area.sum()) - band) > 1e-9 * band:
+                    bad.append('cell areas add up to %r km2, the latitude band +-%.4f has %r km2' % (float(area.sum()), MERC_LAT, band))
+    # point location
+    probes = [(-180.0, 0.0), (180.0, 0.0), (179.99999999999997, 0.0), (0.0, 0.0), (-180.0, -MERC_LAT), (0.0, 85.06), (0.0, -85.06), (10.0, 90.0),
+              (-180.00000000000003, 10.0), (0.0, MERC_LAT), (0.0, float(bounds[:, 3].max())), (0.0, float(bounds[:, 1].min())),
+              (-1e-10, -1e-10), (45.0, 45.0), (200.0, 0.0)]
+    cells = list(range(n)) if n <= corner_cells else rng.sample(range(n), int(corner_cells))
+    for k in cells:
+        w, s, e, nn = bounds[k].tolist()
+        probes += [(w, s), (e, nn), (w, nn), (e, s), ((w + e) / 2, (s + nn) / 2), (w, (s + nn) / 2), ((w + e) / 2, s)]
+        probes += [(float(numpy.nextafter(e, -numpy.inf)), float(numpy.nextafter(nn, -numpy.inf)))]
+    for _ in range(int(n_probes)):
+        probes.append((rng.uniform(-181, 181), rng.uniform(-88, 88)))
+    if kind == 'quadkeys':
+        w, s, e, nn = bounds[:, 0].min(), bounds[:, 1].min(), bounds[:, 2].max(), bounds[:, 3].max()
+        for _ in range(int(n_probes)):
+            probes.append((rng.uniform(w, e), rng.uniform(s, nn)))
+    inside = []
+    nbad = len(bad)
+    for lo, la in probes:
+        hit = _locate(bounds, lo, la)
+        if len(hit) > 1:
+            bad.append('point (%r, %r) lies in %d cells: %r' % (lo, la, len(hit), [qks[h] for h in hit[:3]]))
+            continue
+        exp = int(hit[0]) if len(hit) else None
+        if full and exp is None and -180 <= lo < 180 and -MERC_LAT + 1e-9 < la < MERC_LAT - 1e-9:
+            bad.append('point (%r, %r) inside the covered band lies in no cell' % (lo, la))
+        got = _qt_index_outcome(reg, lo, la)
+        if got != exp:
+            bad.append('get_index_of(%r, %r) = %r, the containing cell is %r%s' % (lo, la, got, exp, '' if exp is None else ' (%s)' % qks[exp]))
+        if exp is not None:
+            inside.append((lo, la, exp))
+        if len(bad) - nbad >= MAXBAD:
+            break
+    if inside:
+        o = call(reg.get_index_of, [p[0] for p in inside], [p[1] for p in inside])
+        if o[0] == 'raise':
+            bad.append('get_index_of(list of %d inside points) raised %s' % (len(inside), _exc(o)))
+        else:
+            got = numpy.asarray(o[1]).tolist()
+            if got != [p[2] for p in inside]:
+                bad.append('get_index_of(lists) differs from the containing cells of %d inside points' % len(inside))
+        o = call(reg.get_index_of, numpy.array([p[0] for p in inside]), numpy.array([p[1] for p in inside]))
+        if o[0] == 'raise' or numpy.asarray(o[1]).tolist() != [p[2] for p in inside]:
+            bad.append('get_index_of(ndarrays) differs from the containing cells of %d inside points' % len(inside))
+    return bad[:MAXBAD + 3]
+
+
+# ================================================================== C11
+def _parse_when(s):
+    s = str(s)
+    d = _dt.datetime.strptime(s[:19], '%Y-%m-%d %H:%M:%S')
+    return d.replace(tzinfo=UTC) if s.endswith('Z') else d
+
+
+def _exact_decimal_year(d):
+    y0 = _dt.datetime(d.year, 1, 1, tzinfo=d.tzinfo)
+    y1 = _dt.datetime(d.year + 1, 1, 1, tzinfo=d.tzinfo)
+    return d.year + Fraction((d - y0) // ONE_US, (y1 - y0) // ONE_US)
+
+
+def _test_date_factor(start, end, when):
+    """fraction of the forecast period elapsed at the end of the test day (exact rational decimal years);
+    unity outside the forecast period"""
+    if when >= end or when <= start:
+        return 1.0
+    a, b = _exact_decimal_year(start), _exact_decimal_year(end)
+    return float((_exact_decimal_year(when + _dt.timedelta(days=1)) - a) / (b - a))
+
+
+def _close(a, b, rel):
+    a, b = float(a), float(b)
+    return abs(a - b) <= rel * max(abs(a), abs(b), 1e-300)
+
+
+def _rate_table(n_cells, n_mags, seed):
+    rng = random.Random(seed)
+    tab = []
+    for _ in range(n_cells):
+        row = []
+        for _ in range(n_mags):
+            r = rng.random()
+            v = 0.0 if r < 0.1 else float('%.6e' % (10 ** rng.uniform(-9, 1)))
+            row.append(v)
+        tab.append(row)
+    return tab
+
+
+def _check_marginals(fc, tag):
+    o = call(lambda: (float(fc.sum()), float(fc.spatial_counts().sum()), float(fc.magnitude_counts().sum()), float(fc.event_count)))
+    if o[0] == 'raise':
+        return ['%s: sum / spatial_counts / magnitude_counts raised %s' % (tag, _exc(o))]
+    t, s, m, e = o[1]
+    if not (_close(t, s, 1e-11) and _close(t, m, 1e-11) and _close(t, e, 1e-11)):
+        return ['%s: sum %r, spatial_counts().sum() %r, magnitude_counts().sum() %r, event_count %r' % (tag, t, s, m, e)]
+    return []
+
+
+def _check_scaling(fc, table, ops, start, end):
+    """ops = [['scale', v] | ['date', 'YYYY-mm-dd HH:MM:SS']]: after each call data == original * that call's factor"""
+    bad = []
+    orig = numpy.array(table, dtype=float)
+    for k, op in enumerate(ops or []):
+        if op[0] == 'scale':
+            factor = float(op[1])
+            o = call(fc.scale, op[1])
+            what = 'scale(%r)' % op[1]
+        else:
+            when = _parse_when(op[1])
+            if start is None:
+                continue
+            if start.tzinfo is not None and when.tzinfo is None:
+                when = when.replace(tzinfo=UTC)
+            factor = _test_date_factor(start, end, when)
+            o = call(fc.scale_to_test_date, when)
+            what = 'scale_to_test_date(%s)%s' % (op[1], '' if start < when < end else ' [outside the forecast period: unity]')
+        if o[0] == 'raise':
+            bad.append('%s raised %s' % (what, _exc(o)))
+            continue
+        data = numpy.asarray(fc.data, dtype=float)
+        exp = orig * factor
+        tol = 1e-12 if op[0] == 'scale' else 1e-8
+        if data.shape != exp.shape or not numpy.all(numpy.abs(data - exp) <= tol * numpy.abs(exp)):
+            nz = orig != 0
+            ratio = float(numpy.median(data[nz] / orig[nz])) if data.shape == exp.shape and nz.any() else None
+            bad.append('after call %d of %r, %s: data = original x %r, required original x %r (last factor, not cumulative)'
+                       % (k + 1, ops, what, ratio, factor))
+        bad += _check_marginals(fc, 'after ' + what)
+        if len(bad) >= 3:
+            break
+    return bad
+
+
+def _probe_rates(fc, cell_boxes, mag_boxes, table, flags, probe_seed, max_cells):
+    """lower corner and five interior points (at least 1% of the cell away from the upper edges, where C02 grants
+    a round-off tolerance) of every sampled space-magnitude box of an unflagged cell"""
+    bad = []
+    rng = random.Random(probe_seed)
+    cells = list(range(len(cell_boxes)))
+    if len(cells) > max_cells:
+        cells = sorted(rng.sample(cells, max_cells - 2) + [0, len(cell_boxes) - 1])
+    fr = [(0.0, 0.0), (0.5, 0.5), (0.25, 0.75), (0.99, 0.01), (0.0, 0.9), (0.6, 0.0)]
+    P = []  # (lon, lat, mag, expected, description)
+    for c in cells:
+        if flags is not None and not flags[c]:
+            continue
+        x0, x1, y0, y1 = cell_boxes[c]
+        for m, (m0, m1) in enumerate(mag_boxes):
+            for k, (fx, fy) in enumerate(fr):
+                lon = x0 if fx == 0 else x0 + fx * (x1 - x0)
+                lat = y0 if fy == 0 else y0 + fy * (y1 - y0)
+                fm = (0.0, 0.5, 0.9)[k % 3]
+                mag = m0 if fm == 0 else m0 + fm * (m1 - m0)
+                P.append((lon, lat, mag, table[c][m], 'cell %d box [%r,%r)x[%r,%r) mag bin [%r,%r)' % (c, x0, x1, y0, y1, m0, m1),
+                          fx == 0 and fy == 0 and fm == 0))
+    if P:
+        lons, lats, mags = (numpy.array([p[i] for p in P]) for i in range(3))
+        o = call(fc.get_rates, lons, lats, mags)
+        if o[0] == 'return':
+            got = numpy.asarray(o[1], dtype=float)
+            if got.shape != (len(P),):
+                bad.append('get_rates returns shape %r for %d points' % (got.shape, len(P)))
+            else:
+                for p, g in zip(P, got.tolist()):
+                    if g != p[3]:
+                        bad.append('get_rates(%r, %r, %r) = %r, the row of %s has rate %r%s' % (
+                            p[0], p[1], p[2], g, p[4], p[3], ' [lower corner]' if p[5] else ''))
+                        if len(bad) >= MAXBAD:
+                            break
+        else:
+            # find the individual points that cannot be looked up
+            nb = 0
+            for p in P:
+                o1 = call(fc.get_rates, numpy.array([p[0]]), numpy.array([p[1]]), numpy.array([p[2]]))
+                if o1[0] == 'raise':
+                    bad.append('get_rates(%r, %r, %r) raised %s; the point is inside %s (rate %r)' % (p[0], p[1], p[2], _exc(o1)[:80], p[4], p[3]))
+                    nb += 1
+                elif float(numpy.asarray(o1[1]).ravel()[0]) != p[3]:
+                    bad.append('get_rates(%r, %r, %r) = %r, the row of %s has rate %r' % (p[0], p[1], p[2], float(numpy.asarray(o1[1]).ravel()[0]), p[4], p[3]))
+                    nb += 1
+                if nb >= MAXBAD:
+                    break
+            if nb == 0:
+                bad.append('get_rates on %d inside points raised %s although each point alone can be looked up' % (len(P), _exc(o)))
+    return bad
+
+
+@oracle('forecast_ascii')
+def _forecast_ascii(lon0, lat0, dh, cells, mags, dmag, flags=None, rate_seed=0, swap_latlon=False, numfmt='plain', via='csep',
+                    ops=None, start=None, end=None, probe_seed=0, max_cells=150, sep='\t'):
+    """CSEP gridded-forecast ASCII file on the decimal lattice (lon0 + i*dh, lat0 + j*dh), (i, j) in `cells` (file order),
+    magnitude rows `mags` (lower edges, decimal strings; upper edge = next edge, last + dmag)"""
+    import csep
+    from csep.core.forecasts import GriddedForecast
+    a, b, h = Decimal(str(lon0)), Decimal(str(lat0)), Decimal(str(dh))
+    md = [Decimal(str(m)) for m in mags]
+    mup = md[1:] + [md[-1] + Decimal(str(dmag))]
+    fmt = (lambda d: format(d, 'f')) if numfmt == 'plain' else (lambda d: '%.4f' % d)
+    table = _rate_table(len(cells), len(md), rate_seed)
+    lines, cell_boxes = [], []
+    for c, (i, j) in enumerate(cells):
+        x0, x1, y0, y1 = a + i * h, a + (i + 1) * h, b + j * h, b + (j + 1) * h
+        sx0, sx1, sy0, sy1 = fmt(x0), fmt(x1), fmt(y0), fmt(y1)
+        cell_boxes.append((float(sx0), float(sx1), float(sy0), float(sy1)))
+        fl = 1 if flags is None else int(flags[c])
+        for m in range(len(md)):
+            geo = [sy0, sy1, sx0, sx1] if swap_latlon else [sx0, sx1, sy0, sy1]
+            lines.append(sep.join(geo + ['0.0', '30.0', fmt(md[m]), fmt(mup[m]), repr(table[c][m]), str(fl)]))
+    mag_boxes = [(float(fmt(lo)), float(fmt(up))) for lo, up in zip(md, mup)]
+    t0 = None if start is None else _parse_when(start)
+    t1 = None if end is None else _parse_when(end)
+    bad = []
+    with tempfile.TemporaryDirectory() as tmp:
+        f = os.path.join(tmp, 'forecast.dat')
+        with open(f, 'w') as fh:
+            fh.write('\n'.join(lines) + '\n')
+        kw = {'swap_latlon': True} if swap_latlon else {}
+        if t0 is not None:
+            kw.update(start_date=t0, end_date=t1)
+        o = call(csep.load_gridded_forecast, f, **kw) if via == 'csep' else call(GriddedForecast.load_ascii, f, **kw)
+        if o[0] == 'raise':
+            return ['loading a well-formed forecast file (%d cells x %d magnitudes, first row %r) raised %s' % (len(cells), len(md), lines[0], _exc(o))]
+        fc = o[1]
+        gm = [float(x) for x in numpy.asarray(fc.magnitudes).tolist()]
+        if gm != [mb[0] for mb in mag_boxes]:
+            bad.append('forecast.magnitudes = %r, lower magnitude edges of the file are %r' % (gm, [mb[0] for mb in mag_boxes]))
+        if numpy.asarray(fc.data).shape != (len(cells), len(md)):
+            bad.append('forecast.data has shape %r for %d cells x %d magnitudes' % (numpy.asarray(fc.data).shape, len(cells), len(md)))
+            return bad
+        bad += _probe_rates(fc, cell_boxes, mag_boxes, table, flags, probe_seed, max_cells)
+        if flags is not None:
+            nb = 0
+            for c, fl in enumerate(flags):
+                if fl:
+                    continue
+                x0, x1, y0, y1 = cell_boxes[c]
+                for (x, y) in ((x0, y0), ((x0 + x1) / 2, (y0 + y1) / 2)):
+                    o1 = call(fc.get_index_of, numpy.array([x]), numpy.array([y]))
+                    o2 = call(fc.get_rates, numpy.array([x]), numpy.array([y]), numpy.array([mag_boxes[0][0]]))
+                    if o1[0] != 'raise' or not isinstance(o1[1], ValueError) or o2[0] != 'raise':
+                        bad.append('point (%r, %r) of cell %d flagged 0 is inside the region: get_index_of -> %r' % (x, y, c, o1[1]))
+                        nb += 1
+                if nb >= 3:
+                    break
+        total = math.fsum(v for row in table for v in row)
+        if flags is None or all(flags):
+            o = call(lambda: float(fc.event_count))
+            if o[0] == 'raise' or not _close(o[1], total, 1e-11):
+                bad.append('event_count = %r, the rate column sums to %r' % (o[1], total))
+        bad += _check_marginals(fc, 'loaded forecast')
+        bad += _check_scaling(fc, table, ops, t0, t1)
+    return bad[:MAXBAD + 3]
+
+
+@oracle('forecast_quadtree')
+def _forecast_quadtree(quadkeys, mags, dmag, rate_seed=0, layout='ascii', ops=None, start=None, end=None, probe_seed=0, max_cells=150):
+    """quadtree forecast files: 'ascii' rows  quadkey lon0 lon1 lat0 lat1 z0 z1 m0 m1 rate  (cell-major);
+    'csv' header  quadkey,depth_min,depth_max,m0,m1,...  then one row of rates per cell"""
+    import mercantile
+    from csep.core.forecasts import GriddedForecast
+    from csep.utils import readers
+    md = [Decimal(str(m)) for m in mags]
+    mup = md[1:] + [md[-1] + Decimal(str(dmag))]
+    fmt = lambda d: format(d, 'f')
+    table = _rate_table(len(quadkeys), len(md), rate_seed)
+    cell_boxes = []
+    for q in quadkeys:
+        bb = mercantile.bounds(mercantile.quadkey_to_tile(q))
+        cell_boxes.append((float(repr(bb.west)), float(repr(bb.east)), float(repr(bb.south)), float(repr(bb.north))))
+    mag_boxes = [(float(fmt(lo)), float(fmt(up))) for lo, up in zip(md, mup)]
+    t0 = None if start is None else _parse_when(start)
+    t1 = None if end is None else _parse_when(end)
+    bad = []
+    with tempfile.TemporaryDirectory() as tmp:
+        if layout == 'ascii':
+            f = os.path.join(tmp, 'forecast.dat')
+            with open(f, 'w') as fh:
+                for c, q in enumerate(quadkeys):
+                    x0, x1, y0, y1 = cell_boxes[c]
+                    for m in range(len(md)):
+                        fh.write(' '.join([q, repr(x0), repr(x1), repr(y0), repr(y1), '0.0', '30.0', fmt(md[m]), fmt(mup[m]), repr(table[c][m])]) + '\n')
+            loader = readers.quadtree_ascii_loader
+        else:
+            f = os.path.join(tmp, 'forecast.csv')
+            with open(f, 'w') as fh:
+                fh.write(','.join(['quadkey', 'depth_min', 'depth_max'] + [fmt(m) for m in md]) + '\n')
+                for c, q in enumerate(quadkeys):
+                    fh.write(','.join([q, '0.0', '30.0'] + [repr(v) for v in table[c]]) + '\n')
+            loader = readers.quadtree_csv_loader
+        o = call(GriddedForecast.from_custom, loader, func_args=(f,), start_time=t0, end_time=t1, name='quadtree')
+        if o[0] == 'raise':
+            return ['loading a well-formed quadtree %s forecast (%d cells x %d magnitudes) raised %s' % (layout, len(quadkeys), len(md), _exc(o))]
+        fc = o[1]
+        gm = numpy.asarray(fc.magnitudes).tolist()
+        if not all(isinstance(x, float) for x in gm) or gm != [mb[0] for mb in mag_boxes]:
+            bad.append('forecast.magnitudes = %r, lower magnitude edges of the file are %r' % (gm, [mb[0] for mb in mag_boxes]))
+        if numpy.asarray(fc.data).shape != (len(quadkeys), len(md)):
+            bad.append('forecast.data has shape %r for %d cells x %d magnitudes' % (numpy.asarray(fc.data).shape, len(quadkeys), len(md)))
+            return bad
+        bad += _probe_rates(fc, cell_boxes, mag_boxes, table, None, probe_seed, max_cells)
+        total = math.fsum(v for row in table for v in row)
+        o = call(lambda: float(fc.event_count))
+        if o[0] == 'raise' or not _close(o[1], total, 1e-11):
+            bad.append('event_count = %r, the rate column sums to %r' % (o[1], total))
+        bad += _check_marginals(fc, 'loaded forecast')
+        bad += _check_scaling(fc, table, ops, t0, t1)
+    return bad[:MAXBAD + 3]
